@@ -8,6 +8,7 @@ import (
 	"go/constant"
 	"go/token"
 	"go/types"
+	"os"
 	"regexp"
 	"sort"
 	"strings"
@@ -882,7 +883,7 @@ func (e *Env) Term(v ssa.Value) string {
 // error (usedOnlyOnSuccess); big.Int and callee-allocated objects keep their own treatment (bigTerm, origins).
 func (e *Env) inlineResult(call *ssa.Call, i int) (ssa.Value, *Env) {
 	sc := call.Call.StaticCallee()
-	if sc == nil || len(sc.Blocks) == 0 || sc.Pkg == nil || !strings.HasPrefix(sc.Pkg.Pkg.Path(), modPath) || e.depth >= 4 {
+	if sc == nil || len(sc.Blocks) == 0 || sc.Pkg == nil || !strings.HasPrefix(sc.Pkg.Pkg.Path(), modPath) || e.depth >= maxDepth {
 		return nil, nil
 	}
 	for x := e; x != nil; x = x.Parent {
@@ -1117,10 +1118,80 @@ func (e *Env) ctorField(u *ssa.UnOp) (ssa.Value, *Env) {
 			}
 		}
 	}
-	if stored == nil || !e.P.fieldAssignedOnlyIn(obj.Type(), fa.Field, sc) {
+	if stored == nil {
+		return nil, nil
+	}
+	if !e.P.fieldAssignedOnlyIn(obj.Type(), fa.Field, sc) && !(base == fa.X && builtInPlace(obj) && localFreshUntouched(base, fa.Field, u)) {
 		return nil, nil
 	}
 	return stored, env.Sub(call, sc)
+}
+
+// builtInPlace: the constructor only stores into the fields of the allocation and returns it: it is not handed to other
+// code (a decoder, a registry) that could fill or keep it.
+func builtInPlace(obj *ssa.Alloc) bool {
+	for _, ref := range *obj.Referrers() {
+		switch r := ref.(type) {
+		case *ssa.FieldAddr:
+			if r.Referrers() == nil {
+				continue
+			}
+			for _, r2 := range *r.Referrers() {
+				if st, ok := r2.(*ssa.Store); !ok || st.Addr != ssa.Value(r) {
+					if _, isLoad := r2.(*ssa.UnOp); !isLoad {
+						return false
+					}
+				}
+			}
+		case *ssa.Return, *ssa.DebugRef:
+		default:
+			return false
+		}
+	}
+	return true
+}
+
+// localFreshUntouched: obj is the fresh result of a constructor call made in this very function; between that call and the
+// load u nothing can have changed its field idx: no store to the field and no hand-over of the object (or of the field's
+// address) to other code can reach u.
+func localFreshUntouched(obj ssa.Value, idx int, u *ssa.UnOp) bool {
+	fn := u.Parent()
+	oi, ok := obj.(ssa.Instruction)
+	if !ok || oi.Parent() != fn || obj.Referrers() == nil {
+		return false
+	}
+	for _, ref := range *obj.Referrers() {
+		switch r := ref.(type) {
+		case *ssa.FieldAddr:
+			if r.Field != idx || r.Referrers() == nil {
+				continue
+			}
+			for _, r2 := range *r.Referrers() {
+				switch x := r2.(type) {
+				case *ssa.UnOp:
+				case *ssa.Store:
+					if x.Addr != ssa.Value(r) || instrReaches(fn, x, u, nil) {
+						return false
+					}
+				default:
+					return false
+				}
+			}
+		case *ssa.Return, *ssa.If, *ssa.DebugRef:
+		case *ssa.BinOp:
+			if !(r.Op == token.EQL || r.Op == token.NEQ) {
+				return false
+			}
+		case *ssa.Extract:
+			// the tuple's own projections
+		default:
+			// handed to other code (call argument, stored, merged): harmless only if that cannot happen before the load
+			if instrReaches(fn, ref, u, nil) {
+				return false
+			}
+		}
+	}
+	return true
 }
 
 var fieldOwnerCache = map[string]bool{}
@@ -1571,7 +1642,7 @@ func (e *Env) lenOf(x ssa.Value) LE {
 // on its successful returns len(result) == len(xs).
 func (e *Env) mappedLen(call *ssa.Call, idx int) (LE, bool) {
 	sc := call.Call.StaticCallee()
-	if sc == nil || len(sc.Blocks) == 0 || sc.Pkg == nil || !strings.HasPrefix(sc.Pkg.Pkg.Path(), modPath) || e.depth >= 4 {
+	if sc == nil || len(sc.Blocks) == 0 || sc.Pkg == nil || !strings.HasPrefix(sc.Pkg.Pkg.Path(), modPath) || e.depth >= maxDepth {
 		return LE{}, false
 	}
 	var acc *ssa.Phi
@@ -2088,7 +2159,7 @@ func (e *Env) decode0(c ssa.Value, truth bool, why string) []Fact {
 		case strings.HasSuffix(name, "/check.IfNil"):
 			return []Fact{lit(nilAtom(e.Term(args[0])), truth, why)}
 		}
-		if sc := b.Call.StaticCallee(); sc != nil && len(sc.Blocks) > 0 && strings.HasPrefix(sc.Pkg.Pkg.Path(), modPath) && e.depth < 4 {
+		if sc := b.Call.StaticCallee(); sc != nil && len(sc.Blocks) > 0 && strings.HasPrefix(sc.Pkg.Pkg.Path(), modPath) && e.depth < maxDepth {
 			// boolean module function: add what its `return <truth>` paths guarantee (e.g. mustVerifyPayable)
 			out := []Fact{{Atom: "call:" + FuncName(sc) + "(" + e.termList(args) + ")", Pos: truth, Why: why, Call: b, Env: e}}
 			sub := e.Sub(b, sc)
@@ -2104,7 +2175,7 @@ func (e *Env) decode0(c ssa.Value, truth bool, why string) []Fact {
 			out := []Fact{{Atom: "cond:" + e.Term(c), Pos: truth, Why: why, Call: call, Env: e}}
 			// boolean result of a module helper with several results (`idx, found := search(list, x)`): what its
 			// returns with that result == truth guarantee
-			if sc := call.Call.StaticCallee(); sc != nil && len(sc.Blocks) > 0 && sc.Pkg != nil && strings.HasPrefix(sc.Pkg.Pkg.Path(), modPath) && e.depth < 4 && b.Type().String() == "bool" {
+			if sc := call.Call.StaticCallee(); sc != nil && len(sc.Blocks) > 0 && sc.Pkg != nil && strings.HasPrefix(sc.Pkg.Pkg.Path(), modPath) && e.depth < maxDepth && b.Type().String() == "bool" {
 				out = append(out, e.Sub(call, sc).boolReturnFactsIdx(b.Index, truth, why+" via "+sc.Name())...)
 			}
 			return out
@@ -2207,6 +2278,19 @@ func definitelyError(v ssa.Value, at *ssa.BasicBlock, seen map[ssa.Value]bool) b
 		switch CalleeName(x) {
 		case "fmt.Errorf", "errors.New":
 			return true
+		}
+		// a module function that builds an error (`return newErrNotOwner()`): every return of it is definitely an error
+		if sc := x.Call.StaticCallee(); sc != nil && len(sc.Blocks) > 0 && sc.Pkg != nil && strings.HasPrefix(sc.Pkg.Pkg.Path(), modPath) &&
+			sc.Signature.Results().Len() == 1 && sc.Signature.Results().At(0).Type().String() == "error" {
+			all := true
+			for _, r := range returnsOf(sc) {
+				if len(r.Results) != 1 || !definitelyError(r.Results[0], r.Block(), seen) {
+					all = false
+				}
+			}
+			if all && len(returnsOf(sc)) > 0 {
+				return true
+			}
 		}
 	case *ssa.Phi:
 		for _, ed := range x.Edges {
@@ -2521,7 +2605,7 @@ func (e *Env) EdgeFacts() map[edge][]Fact {
 				e.ef[nilEdge] = append(e.ef[nilEdge], Fact{Atom: "ok:" + ct, Pos: true, Why: why, Call: call, Env: e})
 				e.ef[errEdge] = append(e.ef[errEdge], Fact{Atom: "ok:" + ct, Pos: false, Why: why, Call: call, Env: e})
 			}
-			if call := errCallOf(bo.X); call != nil && e.depth < 4 {
+			if call := errCallOf(bo.X); call != nil && e.depth < maxDepth {
 				nilEdge := fE
 				if bo.Op == token.EQL {
 					nilEdge = tE
@@ -2546,13 +2630,22 @@ func (e *Env) calleeSuccessFacts(call *ssa.Call, why string) []Fact {
 		return nil
 	}
 	callee := callees[0]
-	if len(callee.Blocks) == 0 || callee.Pkg == nil || !strings.HasPrefix(callee.Pkg.Pkg.Path(), modPath) || e.depth >= 4 {
+	if len(callee.Blocks) == 0 || callee.Pkg == nil || !strings.HasPrefix(callee.Pkg.Pkg.Path(), modPath) || e.depth >= maxDepth {
 		return nil
 	}
 	assume := e.factsAt(call.Block(), call, nil)
 	sub := e.Sub(call, callee)
 	fs := sub.returnFactsA(isSuccessReturn, why+" via "+callee.Name(), assume)
 	out := sub.rewriteResults(call, fs)
+	if os.Getenv("VDEBUG") == callee.Name() {
+		fmt.Fprintln(os.Stderr, "DEBUG summary of", callee.Name(), "ctx", sub.ctx)
+		for _, a := range assume {
+			fmt.Fprintln(os.Stderr, "   assume", a.Key())
+		}
+		for _, a := range fs {
+			fmt.Fprintln(os.Stderr, "   fs", a.Key())
+		}
+	}
 	// when the success returns have different reasons (a gate: exempt, or checked), also the disjunction of what each guarantees
 	if alts := sub.returnAlternatives(isSuccessReturn, why+" via "+callee.Name(), assume); len(alts) > 1 {
 		var ra [][]Fact
@@ -2567,7 +2660,7 @@ func (e *Env) calleeSuccessFacts(call *ssa.Call, why string) []Fact {
 // returnAlternatives: per selected (reachable) return, the facts that hold there; nil if there is at most one such return
 // or more than eight.
 func (e *Env) returnAlternatives(sel func(*ssa.Return) bool, why string, assume []Fact) [][]Fact {
-	if e.depth > 4 {
+	if e.depth > maxDepth {
 		return nil
 	}
 	var alts [][]Fact
@@ -2589,17 +2682,37 @@ func (e *Env) returnAlternatives(sel func(*ssa.Return) bool, why string, assume 
 				if len(assume) > 0 && e.unreachableUnder(pb, assume) {
 					continue
 				}
-				fs := append([]Fact{}, e.factsAt(pb, pb.Instrs[len(pb.Instrs)-1], assume)...)
+				// what decides this way of arriving also rules out earlier branches (`if n > 0 && x == nil {fail}` followed by
+				// `if n == 0 && … {fail}`: arriving with n != 0 means the first test was passed with x != nil)
+				fs := append([]Fact{}, e.factsAt(pb, pb.Instrs[len(pb.Instrs)-1], append(append([]Fact{}, assume...), e.decidingFacts(pb, blk)...))...)
 				fs = append(fs, e.EdgeFacts()[edge{pb, blk}]...)
 				fs = append(fs, e.tailCallFacts(r)...)
 				sets = append(sets, fs)
 			}
 		} else {
-			fs := append([]Fact{}, e.factsAt(r.Block(), r, assume)...)
+			as2 := assume
+			if blk := r.Block(); len(blk.Preds) == 1 {
+				as2 = append(append([]Fact{}, assume...), e.decidingFacts(blk.Preds[0], blk)...)
+			}
+			fs := append([]Fact{}, e.factsAt(r.Block(), r, as2)...)
 			fs = append(fs, e.tailCallFacts(r)...)
 			sets = append(sets, fs)
 		}
-		for _, fs := range sets {
+		for _, fs0 := range sets {
+			m := map[string]Fact{}
+			for _, f := range fs0 {
+				m[f.Key()] = f
+			}
+			e.resultFacts(r, m)
+			var mk []string
+			for k := range m {
+				mk = append(mk, k)
+			}
+			sort.Strings(mk)
+			var fs []Fact
+			for _, k := range mk {
+				fs = append(fs, m[k])
+			}
 			var keep []Fact
 			for _, f := range fs {
 				if f.Lin && f.LE.isConst() {
@@ -2621,6 +2734,44 @@ func (e *Env) returnAlternatives(sel func(*ssa.Return) bool, why string, assume 
 		return nil
 	}
 	return alts
+}
+
+// decidingFacts: what the branch pb -> blk says about values that cannot change inside this function (parameters and values
+// computed from them without reading memory), in this calling context's terms. Whether a condition reads memory is decided
+// on the function's own terms, not on what the caller passed.
+func (e *Env) decidingFacts(pb, blk *ssa.BasicBlock) []Fact {
+	if len(pb.Instrs) == 0 {
+		return nil
+	}
+	iff, ok := pb.Instrs[len(pb.Instrs)-1].(*ssa.If)
+	if !ok || len(pb.Succs) != 2 || pb.Succs[0] == pb.Succs[1] {
+		return nil
+	}
+	truth := blk == pb.Succs[0]
+	local := e.P.Env(e.Fn).decode(iff.Cond, truth, "")
+	mine := e.decode(iff.Cond, truth, e.Fn.Name()+":"+e.P.InstrPos(iff))
+	if len(local) != len(mine) {
+		return nil
+	}
+	var out []Fact
+	for i, f := range local {
+		if len(loadFree([]Fact{f})) == 1 {
+			out = append(out, mine[i])
+		}
+	}
+	return out
+}
+
+// loadFree: the facts that read no memory (parameters and values only): they hold wherever they are stated.
+func loadFree(fs []Fact) []Fact {
+	var out []Fact
+	for _, f := range fs {
+		if len(f.Or) > 0 || len(f.loads) > 0 || len(f.big) > 0 || strings.Contains(f.Key(), "*") || strings.Contains(f.Key(), "#") {
+			continue
+		}
+		out = append(out, f)
+	}
+	return out
 }
 
 // tailCallFacts: for `return …, f(x)` (the returned error is the result of a call made in the returning block): if
@@ -2786,38 +2937,7 @@ func (e *Env) returnFactsA(sel func(*ssa.Return) bool, why string, assume []Fact
 		if len(assume) > 0 && e.unreachableUnder(r.Block(), assume) {
 			continue // this return cannot be taken by a caller that knows `assume`
 		}
-		// facts about the returned values themselves, in terms of "ret#i"
-		for i := range r.Results {
-			rv := liveRetval(r, i)
-			rt := e.Term(rv)
-			if a, k0, ok := e.resultAtom(rv); ok {
-				// an integer result atom + k: linear facts over the atom become facts over the result
-				for _, f := range m {
-					if f.Lin {
-						if _, has := f.LE.c[a]; has {
-							g := f
-							g.LE = substResult(f.LE, a, fmt.Sprintf("ret#%d", i), k0)
-							m[g.Key()] = g
-						}
-					}
-				}
-				if k0 != 0 {
-					continue
-				}
-				rt = a
-			}
-			for k, f := range m {
-				if strings.Contains(k, rt) && !strings.HasPrefix(rt, "nil") && len(rt) > 3 {
-					g := f
-					if g.Lin {
-						g.LE = renameLE(g.LE, rt, fmt.Sprintf("ret#%d", i))
-					} else {
-						g.Atom = strings.ReplaceAll(g.Atom, rt, fmt.Sprintf("ret#%d", i))
-					}
-					m[g.Key()] = g
-				}
-			}
-		}
+		e.resultFacts(r, m)
 		sets = append(sets, m)
 	}
 	if len(sets) == 0 {
@@ -2845,6 +2965,42 @@ func (e *Env) returnFactsA(sel func(*ssa.Return) bool, why string, assume []Fact
 		}
 	}
 	return out
+}
+
+// resultFacts adds, to the facts m holding at return r, the facts about the returned values themselves in terms of "ret#i".
+func (e *Env) resultFacts(r *ssa.Return, m map[string]Fact) {
+	// facts about the returned values themselves, in terms of "ret#i"
+	for i := range r.Results {
+		rv := liveRetval(r, i)
+		rt := e.Term(rv)
+		if a, k0, ok := e.resultAtom(rv); ok {
+			// an integer result atom + k: linear facts over the atom become facts over the result
+			for _, f := range m {
+				if f.Lin {
+					if _, has := f.LE.c[a]; has {
+						g := f
+						g.LE = substResult(f.LE, a, fmt.Sprintf("ret#%d", i), k0)
+						m[g.Key()] = g
+					}
+				}
+			}
+			if k0 != 0 {
+				continue
+			}
+			rt = a
+		}
+		for k, f := range m {
+			if strings.Contains(k, rt) && !strings.HasPrefix(rt, "nil") && len(rt) > 3 {
+				g := f
+				if g.Lin {
+					g.LE = renameLE(g.LE, rt, fmt.Sprintf("ret#%d", i))
+				} else {
+					g.Atom = strings.ReplaceAll(g.Atom, rt, fmt.Sprintf("ret#%d", i))
+				}
+				m[g.Key()] = g
+			}
+		}
+	}
 }
 
 // unreachableUnder: every path from the entry to block p traverses an edge that contradicts the assumptions.
@@ -2999,6 +3155,15 @@ func (e *Env) factsAt(p *ssa.BasicBlock, at ssa.Instruction, assume []Fact) []Fa
 					}
 					if !dead {
 						live = append(live, alt)
+					}
+				}
+				if os.Getenv("VDEBUG") == e.Fn.Name() {
+					fmt.Fprintln(os.Stderr, "DEBUG or-resolution in", e.Fn.Name(), ed, "alts", len(f.Or), "live", len(live))
+					for _, alt := range live {
+						for _, g := range alt {
+							fmt.Fprintln(os.Stderr, "      live:", g.Key())
+						}
+						fmt.Fprintln(os.Stderr, "      --")
 					}
 				}
 				if len(live) == 1 {
@@ -3669,3 +3834,7 @@ func summarizeBy(facts []Fact, goals []LE) string {
 	}
 	return strings.Join(s, " ; ")
 }
+
+// maxDepth bounds the length of a calling context (entry point = 0): helper results, summaries and effect sites are followed
+// through at most this many calls. The longest chain on today's tree is five calls deep; two more leave room for extracted helpers.
+const maxDepth = 7
